@@ -27,8 +27,9 @@ type ekey struct {
 	B int
 }
 
-func toEKey(k string) ekey { return ekey{A: k, B: len(k) * 7} }
-func eMap(k ekey) string   { return fmt.Sprintf("%s#%d", k.A, k.B) }
+// The inner key ignores B: ekey{"a",1} and ekey{"a",2} are aliases of one
+// entry. An entry is identified by the key it was created with.
+func eMap(k ekey) string { return "k:" + k.A }
 
 // cacheAPI hides the three cache flavours.
 type cacheAPI interface {
@@ -55,16 +56,17 @@ func (p plainCache) State() (int, int, bool, int, int) {
 
 type eCache struct {
 	c *glru.ECache[ekey, string, *item]
+	w *world
 }
 
 func (p eCache) Get(k string) (int, error) {
-	v, err := p.c.GetOrCreate(toEKey(k))
+	v, err := p.c.GetOrCreate(ekey{A: k, B: p.w.variant()})
 	if err != nil {
 		return 0, err
 	}
 	return v.id, nil
 }
-func (p eCache) Remove(k string) bool { return p.c.Remove(toEKey(k)) }
+func (p eCache) Remove(k string) bool { return p.c.Remove(ekey{A: k, B: p.w.variant()}) }
 func (p eCache) Clear() int           { return p.c.Clear() }
 func (p eCache) State() (int, int, bool, int, int) {
 	return glru.VerifState(p.c)
@@ -133,6 +135,8 @@ type world struct {
 	hist     []histOp
 	expiry   map[int]time.Time // id -> expiresAt (flavor 2)
 	createdBy map[int]string   // id -> task whose call created it
+	createdPK map[int]ekey     // ECache flavour: the key the entry was created with
+	variants  map[string]int64 // per goroutine: alias variant of the current operation
 	retStamp  map[int]int64    // id -> stamp at which the creating call returned
 	maxNodesOver int
 	loaderSleep map[string]time.Duration
@@ -140,10 +144,12 @@ type world struct {
 
 func New(c *sim.Case) (sim.World, error) {
 	return &world{c: c, mode: c.Mode, attempts: map[string]int{}, failAt: map[string]bool{}, ttlFor: map[string]time.Duration{}, inProg: map[string]int{},
-		created: map[int]string{}, deleted: map[int]int{}, cur: map[string]*callRec{}, expiry: map[int]time.Time{}, createdBy: map[int]string{}, retStamp: map[int]int64{}, loaderSleep: map[string]time.Duration{}}, nil
+		created: map[int]string{}, deleted: map[int]int{}, cur: map[string]*callRec{}, expiry: map[int]time.Time{}, createdBy: map[int]string{}, createdPK: map[int]ekey{}, variants: map[string]int64{}, retStamp: map[int]int64{}, loaderSleep: map[string]time.Duration{}}, nil
 }
 
 func (w *world) prop() string { return w.c.Prop }
+
+func (w *world) variant() int { return int(w.variants[zsimrt.CurrentName()]) }
 
 func (w *world) rec() *callRec {
 	name := zsimrt.CurrentName()
@@ -246,9 +252,17 @@ func (w *world) Setup(e *sim.Env) {
 		var c *glru.ECache[ekey, string, *item]
 		c, err = glru.NewECache[ekey, string, *item](w.capa, eMap, func(k ekey) (*item, error) {
 			it, _, err := w.load(k.A)
+			if it != nil {
+				w.createdPK[it.id] = k
+			}
 			return it, err
-		}, func(k ekey, v *item) { w.onDelete(k.A, v.id) })
-		w.cache = eCache{c}
+		}, func(k ekey, v *item) {
+			if pk, ok := w.createdPK[v.id]; ok && pk != k {
+				e.Violate(w.delProp(), "delete_wrong_args", "the delete callback got key %v for value #%d, but that entry was created with key %v (the caller used an alias that maps to the same inner key)", k, v.id, pk)
+			}
+			w.onDelete(k.A, v.id)
+		})
+		w.cache = eCache{c, w}
 	default:
 		var c *glru.ExpirableCache[string, glru.ExpirableItem[*item]]
 		c, err = glru.NewExpirableCache[string, glru.ExpirableItem[*item]](w.capa, func(k string) (glru.ExpirableItem[*item], error) {
@@ -295,6 +309,7 @@ func (w *world) doOp(idx int, name string, op sim.Op) {
 	e := w.e
 	r := &callRec{}
 	w.cur[name] = r
+	w.variants[name] = op.N
 	call := e.Stamp()
 	var out lruOut
 	switch op.K {
